@@ -9,7 +9,7 @@
 (* bit names, decimal and Rust string syntax) and comparing the result     *)
 (* with the module (DisasmTrace).                                          *)
 (***************************************************************************)
-EXTENDS Integers, Sequences, FiniteSets, TLC, Json, IOUtils, Grammar, Module
+EXTENDS Integers, Sequences, FiniteSets, TLC, Json, IOUtils, Parser, Module
 
 MaskNames == JsonDeserialize(IOEnv.DISASMNAMES)
 
@@ -51,6 +51,17 @@ ExtInstTok(i, imports) ==
   LET set == SetOf(imports, i.ops[1].w[1], 1, "none")  n == i.ops[2].w[1] IN
   IF set = "none" \/ n[1] # 0 \/ ToString(n[2]) \notin DOMAIN G[set] THEN Dec(n) ELSE G[set][ToString(n[2])].name
 
+\* "OpConstant literals as signed or unsigned integers or floats according to the declared type": the type is
+\* looked up among ALL type declarations of the module (wherever they stand)
+RECURSIVE TrackSeq(_, _, _)
+TrackSeq(types, is, j) == IF j > Len(is) THEN types ELSE TrackSeq(Track(types, is[j]), is, j + 1)
+SignedDec(w) == IF w[1] >= 32768 THEN ToString((w[1] - 65536) * 65536 + w[2]) ELSE ToString(w[1] * 65536 + w[2])
+ConstTok(i, types) ==
+  IF i.rt # <<>> /\ Known(types, i.rt[1]) /\ i.ops[1].k = "LiteralBit32" /\ types[i.rt[1]].c = "Int"
+  THEN (IF types[i.rt[1]].sg THEN SignedDec(i.ops[1].w[1]) ELSE Dec(i.ops[1].w[1]))
+  ELSE IF i.rt # <<>> /\ Known(types, i.rt[1]) THEN AnyTok                 \* floats, 64-bit: decided by the reader
+  ELSE IF i.ops[1].k = "LiteralBit32" THEN Dec(i.ops[1].w[1]) ELSE AnyTok  \* undeclared type: the raw bit pattern
+
 \* expected tokens of the line of instruction i (imports: the module's OpExtInstImport instructions)
 LineToksIn(i, imports) ==
   (IF i.rid # <<>> THEN <<IdTok(i.rid[1]), "=">> ELSE <<>>)
@@ -59,6 +70,10 @@ LineToksIn(i, imports) ==
   \o [j \in 1..Len(i.ops) |->
         IF i.op = 12 /\ j = 2 /\ Len(i.ops) >= 2 /\ i.ops[1].k = "IdRef" /\ i.ops[2].k = "LiteralExtInstInteger"
         THEN ExtInstTok(i, imports) ELSE OperandTok(i.ops[j], i.op)]
+LineToksTyped(i, imports, types, global) ==
+  IF i.op = 43 /\ Len(i.ops) = 1 /\ global
+  THEN LET base == LineToksIn(i, imports) IN [base EXCEPT ![Len(base)] = ConstTok(i, types)]
+  ELSE LineToksIn(i, imports)
 
 LineToks(i) ==
   (IF i.rid # <<>> THEN <<IdTok(i.rid[1]), "=">> ELSE <<>>)
